@@ -355,10 +355,6 @@ func modelLog(c *hx.Ctx, r *hx.Rng, logLen int) {
 		default:
 			cmd = u.Gen(kindsModelled)
 		}
-		if in.PickMatters(cmd) {
-			c.Count("stop:map-order-pick")
-			break
-		}
 		res := in.Apply(cmd)
 		hist = append(hist, cmd.Text+" => "+res.String())
 		c.Emit("cmd "+cmd.Text, res.String())
